@@ -1,4 +1,4 @@
 From Coq Require Extraction.
 From Coq Require Import ExtrOcamlBasic.
-From Tickit Require Import LoopDefs LoopSpec LoopAsIs LoopHeap LoopChain LoopIo.
-Extraction "mC17.ml" run runx run_opsx st0 spec_run spec_checkb a_run h_run h_runx h_crun l_run l_checkb hi_run j_run j_checkb.
+From Tickit Require Import LoopDefs LoopSpec LoopAsIs LoopHeap LoopChain LoopIo LoopNest.
+Extraction "mC17.ml" run runx run_opsx st0 spec_run spec_checkb a_run h_run h_runx h_crun l_run l_checkb hi_run j_run j_checkb n_run n_checkb.
